@@ -248,6 +248,13 @@ func runOracle(c *proto.Corpus, order, ids string, seed uint64, free bool, budge
 				simrt.OpEnd(0)
 			})
 			steps = r.Steps
+			if f := simrt.Fault(); f != "" {
+				// beyond the simulator's fixed tables: goroutines ran unmanaged, the
+				// observation of this call does not count
+				simrt.ClearFault()
+				r.Deadlock = false
+				steps = proto.StepsBeyondSimulator
+			}
 			if r.Deadlock {
 				out.IDs = append(out.IDs, id)
 				out.Outcomes = append(out.Outcomes, "hung")
@@ -345,6 +352,12 @@ func runSim(c *proto.Corpus, e *proto.Expected, seed uint64, proc, runs int, bui
 			rec.Policy = proto.PolicyRec{Kind: "free"}
 		}
 		o := execRun(&rec, free)
+		if o.fault != "" {
+			// a table of the simulator overflowed in this run: the run does not count and
+			// the process ends here (what it did before stands)
+			res.Probes["process_ended_at_simulator_bound"]++
+			break
+		}
 		res.Runs++
 		res.Steps += o.sim.Steps
 		res.Switches += o.sim.Switches
@@ -473,6 +486,7 @@ func toProtoEvents(ev []simrt.Event, max int) []proto.Event {
 
 func runReplay(rec *proto.Record, build string, free bool, searchN, searchOff int) {
 	t0 := time.Now()
+	faultIsFatal = true
 	if !free {
 		// collections happen where the run record says (gc events, end of each run); the
 		// memory limit is only the safety net for a tree whose calls allocate so much that
